@@ -24,6 +24,8 @@ CONSTANTS D,            \* directory ids
           FIX_READD,    \* F15: a removed directory is re-added at once when it exists again
           FIX_STALE,    \* F13: a goroutine whose watcher is no longer current does nothing
           FIX_RENAMEDIR, \* F14: a Rename event for a tracked directory is treated like its removal
+          LooseFilter,   \* fsnotify's existence filter may let an event of a vanished file pass (its Lstat fails with
+                         \* ENOTDIR rather than ENOENT when the directory's parent has become a regular file)
           QMax,          \* length of the kernel's event queue per watcher (fs.inotify.max_queued_events)
           FIX_OVERFLOW,  \* F20: the overflow notice makes the watcher goroutine renew its watches and rescan
           FIX_RETRY,     \* F19: a scan that ran out of descriptors is repeated by the next query
@@ -165,7 +167,8 @@ ReaderFetch(w) ==
   /\ wstate[w] = "open" /\ infl[w] = NoEv /\ ub[w] # <<>>
   /\ ub' = [ub EXCEPT ![w] = Tail(@)]
   /\ LET e == Head(ub[w]) IN
-     infl' = [infl EXCEPT ![w] = IF e.op \in {"create", "write"} /\ ~FileThere(e) THEN NoEv ELSE e]
+     \E drop \in (IF e.op \in {"create", "write"} /\ ~FileThere(e) THEN (IF LooseFilter THEN {TRUE, FALSE} ELSE {TRUE}) ELSE {FALSE}) :
+        infl' = [infl EXCEPT ![w] = IF drop THEN NoEv ELSE e]
   /\ UNCHANGED <<exists, gen, files, away, cur, auto, cdirs, wstate, tracked, watches, kq, gor, errs, idx, short, fsops, confs, obs>>
   /\ Rec(Act("fetch", "", "", 0, w, {}, FALSE))
 
